@@ -28,6 +28,7 @@ var allConfigs = map[string]BuildConfig{
 	"force32bit":          {Name: "force32bit", Tags: []string{"force32bit"}},
 	"appengine":           {Name: "appengine", Tags: []string{"appengine"}},
 	"force32bit,appengine": {Name: "force32bit,appengine", Tags: []string{"force32bit", "appengine"}},
+	"noasm,appengine":     {Name: "noasm,appengine", Tags: []string{"noasm", "appengine"}},
 	"386":                 {Name: "386", GOARCH: "386"},
 }
 
